@@ -8,13 +8,17 @@ package gohlslib
 // in cond.Wait) instead of by a wall-clock timeout.
 
 import (
+	"bytes"
 	"fmt"
+	"sort"
+	"strconv"
 	"strings"
 	"testing"
 	"testing/synctest"
 
 	"github.com/bluenviron/gohlslib/v2/internal/zzverif/m3u"
 	"github.com/bluenviron/gohlslib/v2/internal/zzverif/vh"
+	"github.com/bluenviron/mediacommon/v2/pkg/formats/fmp4"
 )
 
 func c06SeqScens(tier string) []e1Scen {
@@ -122,6 +126,52 @@ func c06Probe(r *e1run) {
 	streams := []int{li}
 	if len(r.mi.m.streams) > 1 {
 		streams = append(streams, (li+1)%len(r.mi.m.streams))
+	}
+	// preload hints: the URI a playlist hinted returns, once its part is published, exactly that part - one fragment
+	// whose sequence number is the part number - and the same bytes at every later GET for as long as something answers
+	// (from memory while the segment is open, from the finalised file afterwards)
+	if r.c06Hints == nil {
+		r.c06Hints = map[string][]byte{}
+	}
+	for _, si := range streams {
+		s := r.mi.m.streams[si]
+		var hinted []string
+		for u := range r.c06Hints {
+			hinted = append(hinted, u)
+		}
+		sort.Strings(hinted)
+		for _, u := range hinted {
+			nm := partNumRe.FindStringSubmatch(stripQuery(u))
+			if nm == nil || !strings.Contains(u, "_"+s.id+"_") {
+				continue
+			}
+			n, _ := strconv.Atoi(nm[1])
+			if uint64(n) >= s.nextPartID {
+				continue // not published yet: a GET would block
+			}
+			rr := r.safeGet(u)
+			if rr.Status != 200 {
+				continue // expired with its segment
+			}
+			var parts fmp4.Parts
+			if err := parts.Unmarshal(rr.Body.Bytes()); err != nil || len(parts) != 1 || int(parts[0].SequenceNumber) != n {
+				r.add("C06", "hint-not-exactly-the-part", "GET %s (a hinted part, published) returned %d bytes that are not exactly one fragment with sequence number %d: %d fragment(s), %v (write %d)", canon(u), rr.Body.Len(), n, len(parts), err, st.write)
+				continue
+			}
+			if old := r.c06Hints[u]; old != nil && !bytes.Equal(old, rr.Body.Bytes()) {
+				r.add("C06", "hint-bytes-changed", "GET %s returned %d bytes at an earlier GET and %d different bytes now (write %d)", canon(u), len(old), rr.Body.Len(), st.write)
+			}
+			if r.c06Hints[u] == nil {
+				r.c06Hints[u] = append([]byte{}, rr.Body.Bytes()...)
+			}
+		}
+		if pl := st.streams[si].mp; pl != nil {
+			for _, h := range pl.PreloadHints {
+				if _, ok := r.c06Hints[h.URI]; !ok {
+					r.c06Hints[h.URI] = nil
+				}
+			}
+		}
 	}
 	for _, si := range streams {
 		pl := st.streams[si].mp
